@@ -14,6 +14,7 @@ CONSTANTS
   ApiOps = TRUE
   SeqReq = TRUE
   Reqs = {}
+  LocalKinds = {"budget", "cancel"}
 INIT Init
 NEXT Next
 VIEW View
